@@ -24,6 +24,10 @@ NOTES = {
     "C10-m1": "first run: tie only + the oracle crashed on the harness's `readFd-error` line: oracle clauses readFd-error / readFd-cap, "
               "boundary generator at writable + 64 KiB",
     "C10-m2": "first run: tie only (single-threaded harness): free-running multi-thread readFd scenario (`mtReadFd`)",
+    "C11-m1": "first run (before the Client engine was extended for F33): `crash` with a concrete replay. Now the check stops at the first "
+              "disagreements between model and implementation - the replay file carries the concrete history (`script soerr ECONNREFUSED`, "
+              "`pollerr`, `iter`: implementation `sock handedOver 0`, `cb UP 0`; model `sock closed 0` + retry) - but the oracle has no clause "
+              "of its own for 'a refused attempt is never reported as a connection', so the line says no-failing-input-found",
     "C14-m1": "first run: tie only - the harness names the condition variables after the members and no longer compiled: "
               "anonymous-sync fallback build, oracle judges by operation",
     "C15-m1": "tie only, and rightly so: with the change the queued tasks run between the call of stop() and its return, which the "
@@ -38,8 +42,20 @@ NOTES = {
 }
 
 
+NOTES_W6 = {
+    "C02-m1": "C02's own check: ConnSkel / hold-kind tie only (the single-connection harness keeps a reference); the concrete replay is C12's "
+              "(~TcpClient as the sole owner), as for the earlier weak-forceClose change C03-w2m2",
+    "C06-m1": "a repeat of F4 / C07-m2 (sequence read after the hand-over): C06's check reports the broken tie; the use-after-free is C07's (`crash`, ASan)",
+    "C16-m1": "T1 only (`AsyncLog` extraction refuses the new declaration in threadFunc): every generated overload history has ONE overload pass; "
+              "two passes within flushInterval_ need the front-end to pause between two bursts while the back-end is inside its report - not in the alphabet. Named as a limit",
+}
+
+
 def main():
     wave, tag = sys.argv[1], sys.argv[2]
+    global NOTES
+    if tag == "w6":
+        NOTES = NOTES_W6
     det = {}
     lines = []
     for f in sys.argv[3:]:
@@ -81,7 +97,8 @@ def main():
             shutil.copy(os.path.join(out, "m%d_demo.cc" % k), os.path.join(dst, "demo.cc"))
             shutil.copy(os.path.join(out, "m%d_writeup.md" % k), os.path.join(dst, "writeup.md"))
             title = open(os.path.join(out, "m%d_writeup.md" % k)).readline().strip().lstrip("# ")
-            title = re.sub(r"^C\d\d\s*/\s*m\d\s*[-—–:]*\s*", "", title)
+            title = re.sub(r"^(C\d\d\s*/\s*)?[mM]\d\s*[-—–:]*\s*", "", title)
+            title = re.sub(r"^[mM]\d\s*[-—–:]*\s*", "", title)
             d = det.get((sid, k), {})
             detection = []
             for chk, r in sorted(d.items(), key=lambda x: (x[0] != sid, x[0])):
@@ -90,10 +107,10 @@ def main():
                                   "replay_kind": (concrete or [kd for kd, _ in r["kinds"]] or ["-"])[0],
                                   "concrete_failing_input": bool(concrete), "seconds": r["seconds"]})
             meta = {
-                "property": sid, "mutation": "wave 5 m%d" % k, "title": title, "files_changed": c["files_changed"].split(),
-                "base_commit_of_patch": "/repo f021457",
+                "property": sid, "mutation": "wave %s m%d" % (tag[1:], k), "title": title, "files_changed": c["files_changed"].split(),
+                "base_commit_of_patch": "/repo f021457" if tag == "w5" else "/repo 0cd9f18",
                 "written_by": "independent sub-agent given only the property text, a list of earlier ideas not to repeat and a scratch git "
-                              "worktree of /repo (no access to /verif); fifth wave",
+                              "worktree of /repo (no access to /verif); wave %s" % tag[1:],
                 "needs_to_manifest": "see writeup.md",
                 "confirmed_in_scratch_worktree": dict(c, confirmed=confirmed, how="tools/seedconfirm.sh: patch applies; demonstration built "
                                                       "against the unchanged sources exits 0 three times; project build (release flags, -Werror) of the "
